@@ -41,6 +41,9 @@ HostEvents2 ==
   \/ HEv("host", "sendbig") /\ HostSLTooBig /\ hSL[2].k = H[lh].k
   \/ HEv("host", "recvd") /\ HostRLRecv /\ Wire(Head(c2h).k) = H[lh].k
   \/ HEv("host", "recverr") /\ HostRLErr
+  \/ HEv("harness", "crashpoint") /\ UNCHANGED vars                         \* C16: the controller parks here
+  \/ HEv("harness", "crash") /\ HostDies                                    \* C16: SIGKILL of the controller
+  \/ HEv("harness", "allgone") /\ spc = "dead" /\ child \in {"none", "dead"} /\ UNCHANGED vars   \* observed: nothing left
   \/ HEv("host", "branch") /\ CASE H[lh].b = "done"   -> HostWaitDone
                                 [] H[lh].b = "ctx"    -> HostWaitCtx
                                 [] H[lh].b = "result" -> HostWaitResult
@@ -81,7 +84,7 @@ InitSilent ==
 \* of steps that did happen can be missing: once its log is exhausted its steps are unlogged
 InitTail == lc > Len(C) /\ Sil /\ (ContLoopNext \/ ContSrvNext)
 \* the program's own exit is not logged
-EnvSilent == Sil /\ (ChildExit \/ (dz /\ DestroyClose) \/ (kz /\ InitDies))
+EnvSilent == Sil /\ (ChildExit \/ (dz /\ DestroyClose) \/ (kz /\ InitDies) \/ Pdeathsig)
 
 TNext == HostEvents \/ HostSilent \/ InitEvents \/ InitSilent \/ InitTail \/ EnvSilent
 TSpec == TInit /\ [][TNext]_tvars
